@@ -11,7 +11,10 @@
    "The receive loop and the keepalive then stop": the loop's trace is finite and the Disconnected
    event is its last action; the keepalive side is C18 (C18_stops_iff, C18_after_quit_silent) on the
    channel closed at [AQuit] here.  "No goroutine is left behind, nothing panics": runtime facts,
-   counted by the harness after quiescence (stack inspection), not stateable over this model.
+   counted by the harness after quiescence (stack inspection); what the model does state is the part that
+   hangs on state kept in the Client object across connections: over every history of connections of one
+   Client each connection has its own quit channel, closed at its own end, and no keepalive is running once
+   a receiver has returned (Model/RecvHist.v, C12_every_connection_stops_its_keepalive, C12_own_quit_channel).
    An element NextPacket rejects ends the loop with the same report although the connection itself
    is not cut (the loop does not close it). *)
 From Coq Require Import List ZArith NArith Bool.
